@@ -6,12 +6,14 @@
 (* stdin = FILE, exit status 0 iff assembly and the requested output succeeded.*)
 EXTENDS AsmMech, Json, IOUtils, TLC, SequencesExt
 
-\* a flag vector; conflicting mode flags are not combined (their order of application is undocumented)
+\* a flag vector; long mode flags are not combined with short ones nor with conflicting long ones (their order of application
+\* is undocumented); two short flags (-n -t -s) are: each calls asm_set_all when it is met, so the later one wins
 FlagVectors ==
   { f \in [ mov : {"", "nasm", "strict", "smart"}, sib : {"", "nasm", "strict"}, swap : {"", "nasm", "strict"},
-            nobase : {"", "nasm", "strict"}, short : {"", "n", "t", "s"},
+            nobase : {"", "nasm", "strict"}, short : {"", "n", "t", "s"}, short2 : {"", "n", "t", "s"},
             p : BOOLEAN, out : {"", "P", "o", "Pbad"}, c : {0, 8, 16}, b : {0, 8}, r : BOOLEAN, src : {"stdin", "file"} ] :
       /\ (f.short # "" => f.mov = "" /\ f.sib = "" /\ f.swap = "" /\ f.nobase = "")
+      /\ (f.short2 # "" => f.short # "")                 \* two short mode flags: applied in command-line order, the last one wins per dimension
       /\ (f.sib # "" => f.swap = "" /\ f.nobase = "") }
 
 Up(v) == IF v = "nasm" THEN "NASM" ELSE IF v = "strict" THEN "STRICT" ELSE "SMART"
@@ -19,7 +21,8 @@ Up(v) == IF v = "nasm" THEN "NASM" ELSE IF v = "strict" THEN "STRICT" ELSE "SMAR
 \* -s = smart mov-imm; --*-sib = both SIB options
 OptOf(f) ==
   LET o0 == DefaultOpt
-      o1 == IF f.short = "n" THEN SetAll(o0, "NASM") ELSE IF f.short = "t" THEN SetAll(o0, "STRICT") ELSE IF f.short = "s" THEN SetAll(o0, "SMART") ELSE o0
+      sh(o, x) == IF x = "n" THEN SetAll(o, "NASM") ELSE IF x = "t" THEN SetAll(o, "STRICT") ELSE IF x = "s" THEN SetAll(o, "SMART") ELSE o
+      o1 == sh(sh(o0, f.short), f.short2)
       o2 == IF f.mov # "" THEN SetMov(o1, Up(f.mov)) ELSE o1
       o3 == IF f.sib # "" THEN SetSib(o2, Up(f.sib)) ELSE o2
       o4 == IF f.swap # "" THEN SetSwap(o3, Up(f.swap)) ELSE o3
